@@ -9,7 +9,7 @@ import reactivex.operators as ops
 from reactivex.internal.exceptions import SequenceContainsNoElementsError
 
 from .. import registry as R
-from ..common import UnitResult, case_rng, chunks, show
+from ..common import UnitResult, case_rng, chunks, show, strict
 from ..single import SUB_AT, cut_after_terminal, make_input, match_expected, run_single, run_twice, show_timed
 from ..vlab import SrcErr, gen_timeline, gen_value, show_timeline
 from . import _c06_seqeq as SQ
@@ -45,6 +45,7 @@ REQUIRED = {"set:ops": len(OPS), "second_subscriptions_checked": {"quick": 1500,
             "empty_input_error_expected": {"quick": 400, "thorough": 9000},
             "single_second_element_error_expected": {"quick": 200, "thorough": 5000},
             "short_circuit_decided_before_completion": {"quick": 800, "thorough": 20000},
+            "reentrant_feed_cases": {"quick": 4000, "thorough": 100000},
             "default_or_seed_emitted_for_empty": {"quick": 250, "thorough": 6000},
             "falsy_default_or_seed_emitted": {"quick": 150, "thorough": 4000},
             "extrema_by_ties_listed": {"quick": 100, "thorough": 2500},
@@ -475,10 +476,76 @@ def run_case(seed: int, idx: int, res: UnitResult) -> None:
                               {"seed": seed, "idx": idx})
 
 
+def reentrant_feed_case(seed: int, idx: int, res: UnitResult) -> None:
+    """As in C05: the source is a Subject fed from inside the deliveries (the aggregate's subscriber publishes the next input element
+    from its on_next; a plain subscriber of the source, subscribed last, keeps the feed going when nothing was emitted). The result
+    must still be the Python value computed from the list a first subscriber saw (kinds and values; no virtual time here)."""
+    from reactivex.subject import Subject
+    r = case_rng(seed, ID, "reentrant", idx)
+    case = gen_case(r, idx)
+    if case["op"].startswith("sequence_equal") or any(k == "E" for (t, k, v) in case["tl"]):
+        return
+    xs = [v for (t, k, v) in case["tl"] if k == "N"]
+    n = len(xs)
+    subject: Any = Subject()
+    everything: list = []
+    subject.subscribe(everything.append)
+    st = {"next": 0, "subscribed": False}
+
+    def push_next() -> None:
+        if st["subscribed"] and st["next"] < n:
+            i = st["next"]
+            st["next"] += 1
+            subject.on_next(xs[i])
+    got: list = []
+
+    def on_next(v: Any) -> None:
+        got.append(("N", v))
+        push_next()
+    subject.pipe(build(case)).subscribe(on_next, lambda e: got.append(("E", e)), lambda: got.append(("C", None)))
+
+    def pump(v: Any) -> None:
+        if st["next"] == len(everything):
+            push_next()
+    subject.subscribe(pump)
+    st["subscribed"] = True
+    push_next()
+    subject.on_completed()
+    if len(everything) != n or st["next"] != n:
+        res.count("reentrant_setup_not_serial")
+        return
+    seen = [(float(i), "N", v) for i, v in enumerate(xs)] + [(float(n), "C", None)]
+    alts = model(case, seen, {})
+    desc = describe(case)
+    desc["family"] = "re-entrant feed"
+    res.count("reentrant_feed_cases")
+    res.case(key=desc, nontrivial=n >= 2)
+
+    def same(exp: list) -> bool:
+        e2 = [(k, v) for (t, k, v) in exp]
+        if len(e2) != len(got):
+            return False
+        for a, b in zip(e2, got):
+            if a[0] != b[0]:
+                return False
+            if a[0] == "N" and strict(a[1]) != strict(b[1]):
+                return False
+        return True
+    if not any(same(a) for a in alts):
+        res.violation("C06:%s:reentrant-source" % case["op"], {"why": "result differs from the Python computation when the source is fed from inside the deliveries",
+                                                                "case": desc, "input": show(xs), "expected": show_alts(alts), "observed": show(got)},
+                      {"seed": seed, "idx": idx, "family": "reentrant"})
+
+
 def run_unit(unit: dict, res: UnitResult) -> None:
     for idx in range(unit["lo"], unit["hi"]):
         run_case(unit["seed"], idx, res)
+        if idx % 3 == 0:
+            reentrant_feed_case(unit["seed"], idx, res)
 
 
 def replay(rep: dict, res: UnitResult) -> None:
+    if rep.get("family") == "reentrant":
+        reentrant_feed_case(rep["seed"], rep["idx"], res)
+        return
     run_case(rep["seed"], rep["idx"], res)
